@@ -72,6 +72,8 @@ static std::vector<std::string> candidateKeys(const std::string& s)
     return keys;
 }
 
+std::string mimeCanon(const Mime::MediaType& m, const std::string& text) { return canon(m, candidateKeys(text)); }
+
 static bool parseParamsArg(const std::string& a, std::vector<std::pair<std::string, std::string>>& out)
 {
     if (a == "-") return true;
